@@ -1,9 +1,10 @@
 (* C08 (callers) - proofs, part 2: the end-to-end rounding bound with the schedule hypothesis made explicit.
    U s = now s - delay s is the clock with every delay taken out (time that passed while the caller was not parked,
-   and time that passed in a park after its armed deadline).  For the textbook loop (KRem) and the single parks
-   (KSingle)          U + slack < call + d + 1 ms        in every state of a call,
-   for the code of recv_timeout / Cqueue::poll (KFull) only as long as no park returned without data, and
-                      U + slack < call + 2 d + 1 ms      in general (witness of the gap: TimedCallersRefute.v). *)
+   and time that passed in a park after its armed deadline).  For the code of recv_timeout / Cqueue::poll since fix
+   3916da2 (KRem) and the single parks (KSingle)
+                      U + slack < call + d + 1 ms        in every state of a call,
+   for the code before that fix (KFull) only as long as no park returned without data, and
+                      U + slack < call + 2 d + 1 ms      in general (witness of the gap: TimedCallersInst.v). *)
 From Coq Require Import ZArith List Bool Lia.
 Import ListNotations.
 Require Import MayV.Rt.AtomicDur MayV.Rt.TimedCallers MayV.Rt.TimedCallersThm.
@@ -15,14 +16,13 @@ Variable arm : Z -> option Z.
 Variable DMAX : Z.
 Hypothesis arm_lo : forall x a, 0 <= x <= DMAX -> arm x = Some a -> x <= a.
 Hypothesis arm_hi : forall x a, 0 <= x <= DMAX -> arm x = Some a -> a < x + MS.
-Hypothesis arm_zero : arm 0 = Some 0.
 Hypothesis arm_some : forall x, 0 <= x -> arm x <> None.
 
 Definition U (s : st) := now s - delay s.
 Definition B (s : st) := tcall s + dur s + MS.
 
 Definition pre_park (p : pc) : bool :=
-  match p with Try0 | ReadDl | Top | ReadRem | Enter => true | _ => false end.
+  match p with Try0 | ReadDl | Top | Enter => true | _ => false end.
 Definition first_pcs (p : pc) : bool := match p with Try0 | ReadDl => true | _ => false end.
 
 Definition bound_clause (K : kind) (s : st) : Prop :=
@@ -42,7 +42,6 @@ Record Body (K : kind) (s : st) : Prop := mkBody {
   b_pre : first_pcs (pcs s) = true -> nsp s = 0%nat /\ U s = tcall s;
   b_single : is_single K = true ->
              nsp s = 0%nat /\ pcs s <> ReadDl /\ pcs s <> Chk /\ (pre_park (pcs s) = true -> U s = tcall s);
-  b_remk : pcs s = ReadRem -> K = KRem;
   (* the deadline is call + d + (the delay before the clock was read), and that reading is in the past *)
   b_dl : is_single K = false -> dl_set (pcs s) = true ->
          0 <= dl s - dur s - tcall s <= delay s /\ dl s - dur s <= now s;
@@ -51,7 +50,7 @@ Record Body (K : kind) (s : st) : Prop := mkBody {
                      (K = KFull -> dur s <= a /\ dl s - dur s <= tp s);
   b_after : pcs s = After VTimeout -> forall a, ar s = Some a -> tp s + a <= now s;
   (* KRem: what is about to be armed fits *)
-  b_rem : K = KRem -> pcs s = Enter -> 0 <= rem s <= dur s /\ forall a, arm (rem s) = Some a -> U s + a < B s;
+  b_rem : K = KRem -> pcs s = Top \/ pcs s = Enter -> 0 <= rem s <= dur s /\ forall a, arm (rem s) = Some a -> U s + a < B s;
   b_bound : bound_clause K s
 }.
 
@@ -68,7 +67,7 @@ Lemma invb_tick K s dt :
   InvB K (set_time (now s + dt) (delay s + (dt - free_of s dt)) s).
 Proof.
   intros (Hres & I) E. split; [exact Hres|]. cbn. intros P D. specialize (I P D).
-  destruct I as [I1 I2 I3 I4 I5 I5b I6 I7 I8 I9 I10].
+  destruct I as [I1 I2 I3 I4 I5 I6 I7 I8 I9 I10].
   assert (F : 0 <= free_of s dt <= dt).
   { unfold free_of. destruct (pcs s); try lia. destruct (ar s); lia. }
   assert (NP : pcs s <> Parked -> free_of s dt = 0).
@@ -85,12 +84,11 @@ Proof.
     specialize (I4 Q). lia.
   - intros S. destruct (I5 S) as (X1 & X2 & X3 & X4). repeat split; auto.
     intros Q. unfold U in *; cbn. rewrite NP by (intros X; rewrite X in Q; discriminate). specialize (X4 Q). lia.
-  - exact I5b.
   - intros S Q. destruct (I6 S Q) as ((? & ?) & ?). lia.
   - intros Q. destruct (I7 Q) as (a & A1 & A2 & A3 & A4). exists a. repeat split; auto; try lia; apply A4; assumption.
   - intros Q a A. specialize (I8 Q a A). lia.
   - intros S Q. destruct (I9 S Q) as (X1 & X). split; [exact X1|]. intros a A. specialize (X a A).
-    unfold U, B in *; cbn. rewrite NP by (rewrite Q; discriminate). lia.
+    unfold U, B in *; cbn. rewrite NP by (destruct Q as [Q|Q]; rewrite Q; discriminate). lia.
   - unfold bound_clause, U, B in *; cbn. destruct K.
     + destruct I10 as (J1 & J2 & J3 & J4). split; [|split; [|split]].
       * intros N. specialize (J1 N). lia.
@@ -117,7 +115,7 @@ Ltac pcase K H Hres I :=
   split_match H; try discriminate; try inv_some;
   cbn [pcs dur res tcall set_pcs set_q set_dl set_tok set_rem set_park set_nsp set_obs set_res];
   try (split; [exact Hres|]);
-  try (let D := fresh "D" in intros _ D; destruct (I D) as [I1 I2 I3 I4 I5 I5b I6 I7 I8 I9 I10]).
+  try (let D := fresh "D" in intros _ D; destruct (I D) as [I1 I2 I3 I4 I5 I6 I7 I8 I9 I10]).
 
 Lemma invb_cstep K s to s' : K <> KRecomp -> InvB K s -> cstep K retry arm s to = Some s' -> InvB K s'.
 Proof.
@@ -126,12 +124,8 @@ Proof.
   all: specialize (I ltac:(discriminate)).
   - (* Try0 *) pcase K H Hres I; constructor; cbn; rewrite ?P in *; bauto.
   - (* ReadDl *) pcase K H Hres I; constructor; cbn; rewrite ?P in *; bauto.
+    all: match goal with Ha : arm ?x = Some ?a |- _ => assert (a < x + MS) by (apply arm_hi; [lia | exact Ha]); lia end.
   - (* Top *) pcase K H Hres I; constructor; cbn; rewrite ?P in *; bauto.
-  - (* ReadRem *) pcase K H Hres I; constructor; cbn; rewrite ?P in *; bauto.
-    match goal with Ha : arm (Z.max 0 ?x) = Some ?a |- _ =>
-      destruct (Z.max_spec 0 x) as [[L E]|[L E]]; rewrite E in Ha;
-      [ assert (a < x + MS) by (apply arm_hi; [lia | exact Ha]); lia
-      | rewrite arm_zero in Ha; injection Ha as <-; lia ] end.
   - (* Enter *) pcase K H Hres I; constructor; cbn; rewrite ?P in *; bauto.
     all: match goal with |- context [arm ?x] =>
            let A := fresh "A" in
@@ -148,7 +142,7 @@ Proof.
   - (* Ret *)
     (destruct K; [ | | congruence | ]); inv_some; cbn; (split; [|intros X; congruence]); intros D t y Hi;
       injection Hi as -> <- <-;
-      destruct (I D) as [I1 I2 I3 I4 I5 I5b I6 I7 I8 I9 I10]; unfold bound_clause, U, B, slack in *; rewrite P in *; brk; lia.
+      destruct (I D) as [I1 I2 I3 I4 I5 I6 I7 I8 I9 I10]; unfold bound_clause, U, B, slack in *; rewrite P in *; brk; lia.
 Qed.
 
 Ltac env_case I :=
@@ -176,18 +170,18 @@ Proof. intros Hk R. induction R; [apply invb_init | eapply invb_step; eassumptio
 
 (* ---- theorems ---- *)
 
-(* the textbook loop and the single parks: in every state of a call the clock without the delays, plus what is left
+(* the deadline loops (since fix 3916da2) and the single parks: in every state of a call the clock without the delays, plus what is left
    of the free waiting time of the current park, stays below call + d + 1 ms *)
 Theorem bound_rem_single K s :
   K = KRem \/ K = KSingle -> Reach K retry arm s -> pcs s <> Idle -> dur s <= DMAX ->
   now s - delay s + slack s < tcall s + dur s + MS.
 Proof.
   intros Hk R P D. assert (Hn : K <> KRecomp) by (destruct Hk; congruence).
-  destruct (invb_reach K s Hn R) as (_ & I). destruct (I P D) as [_ _ _ _ _ _ _ _ _ _ I10].
+  destruct (invb_reach K s Hn R) as (_ & I). destruct (I P D) as [_ _ _ _ _ _ _ _ _ I10].
   unfold bound_clause, U, B in I10. destruct Hk; subst K; exact I10.
 Qed.
 
-(* the code (park for the full timeout in every iteration): the same bound as long as no park of the call returned
+(* the loops before fix 3916da2 (park for the full timeout in every iteration): the same bound as long as no park of the call returned
    without data, and call + 2 d + 1 ms in general *)
 Theorem bound_full s :
   Reach KFull retry arm s -> pcs s <> Idle -> dur s <= DMAX ->
@@ -195,7 +189,7 @@ Theorem bound_full s :
   now s - delay s + slack s < tcall s + dur s + dur s + MS.
 Proof.
   intros R P D. destruct (invb_reach KFull s ltac:(discriminate) R) as (_ & I).
-  destruct (I P D) as [_ _ _ _ _ _ _ _ _ _ I10]. unfold bound_clause, U, B in I10. destruct I10 as (J1 & J2 & _).
+  destruct (I P D) as [_ _ _ _ _ _ _ _ _ I10]. unfold bound_clause, U, B in I10. destruct I10 as (J1 & J2 & _).
   split; [exact J1 | lia].
 Qed.
 
@@ -226,7 +220,7 @@ Theorem parked_timer_deadline K s :
     end.
 Proof.
   intros Hn R P D. destruct (invb_reach K s Hn R) as (_ & I).
-  destruct (I ltac:(rewrite P; discriminate) D) as [_ _ _ _ _ _ _ I7 _ _ I10].
+  destruct (I ltac:(rewrite P; discriminate) D) as [_ _ _ _ _ _ I7 _ _ I10].
   destruct (I7 (or_introl P)) as (a & A & A0 & _). exists a. split; [exact A|]. split; [exact A0|].
   unfold bound_clause, U, B, slack in I10. rewrite P, A in I10.
   destruct K; try congruence; brk; try split; intros; spec_all; lia.
